@@ -2,6 +2,7 @@
 package recovery
 
 import (
+	stderrors "errors"
 	"fmt"
 	"math"
 	"os"
@@ -147,8 +148,10 @@ func (dr *DatabaseRecovery) loadWithRetry(primaryPath, personalPath string) (*da
 
 // shouldRetry determines if an error is worth retrying
 func (dr *DatabaseRecovery) shouldRetry(err error) bool {
-	// Don't retry for file not found or permission errors
-	if os.IsNotExist(err) || os.IsPermission(err) {
+	// Don't retry for file not found or permission errors. The loader wraps the
+	// underlying file error, so look through the wrapper (os.IsNotExist does not).
+	if os.IsNotExist(err) || os.IsPermission(err) ||
+		stderrors.Is(err, os.ErrNotExist) || stderrors.Is(err, os.ErrPermission) {
 		return false
 	}
 
